@@ -84,6 +84,53 @@ func Run(c *common.Ctx) error {
 		cf.Add(h.CoqCase(), map[string]any{"kind": "history", "page_size": cfg.PageSize, "scripted": "leaving WAL mode", "steps": h.Steps})
 		h.Close()
 	}
+	// the transaction that would create the database is rolled back - before it wrote anything, and after a spill (SQLite
+	// then cuts the file back to nothing) - in every journal mode; then the database is created after all
+	for _, jm := range []int{0, 1, 2} {
+		cfg := hist.Config{PageSize: []int{512, 4096, 1024}[jm]}
+		h, err := hist.New(c, c.Rng.Fork(), cfg)
+		if err != nil {
+			if h != nil {
+				h.Close()
+			}
+			return fmt.Errorf("history setup: %w", err)
+		}
+		for _, st := range []hist.Step{
+			{Op: "rtx", Writes: map[uint32]uint64{1: 1, 2: 2, 3: 3}, NewSize: 3, JMode: jm, Outcome: 2},
+			{Op: "rtx", Writes: map[uint32]uint64{1: 11, 2: 12}, NewSize: 2, JMode: jm, Outcome: 1},
+			{Op: "rtx", Writes: map[uint32]uint64{1: 21, 2: 22, 3: 23, 4: 24}, NewSize: 4, JMode: jm, Outcome: 2, Spill: 2},
+			{Op: "rtx", Writes: map[uint32]uint64{1: 31, 2: 32}, NewSize: 2, JMode: jm},
+			{Op: "rtx", Writes: map[uint32]uint64{2: 42, 3: 43}, NewSize: 3, JMode: jm},
+		} {
+			if ob := h.Exec(st); ob.Panic != "" || len(ob.Exits) > 0 {
+				break
+			}
+		}
+		h.CheckCrash(c, "C02")
+		h.CheckCapture(c, "C02", map[string]bool{"rtx": true, "lockonly": true})
+		cf.Add(h.CoqCase(), map[string]any{"kind": "history", "page_size": cfg.PageSize, "scripted": "creating transaction rolled back", "steps": h.Steps})
+		h.Close()
+	}
+	// a database that grows across pages SQLite never writes (free-list leaves), with restarts in between
+	for _, ps := range []int{512, 65536} {
+		cfg := hist.Config{PageSize: ps, AllowWAL: true}
+		h, err := hist.New(c, c.Rng.Fork(), cfg)
+		if err != nil {
+			if h != nil {
+				h.Close()
+			}
+			return fmt.Errorf("history setup: %w", err)
+		}
+		for _, st := range hist.UnwrittenGrowthSteps() {
+			if ob := h.Exec(st); ob.Panic != "" || len(ob.Exits) > 0 {
+				break
+			}
+		}
+		h.CheckCrash(c, "C02")
+		h.CheckCapture(c, "C02", map[string]bool{"rtx": true, "lockonly": true, "wtx": true})
+		cf.Add(h.CoqCase(), map[string]any{"kind": "history", "page_size": cfg.PageSize, "scripted": "growth across unwritten pages", "steps": h.Steps})
+		h.Close()
+	}
 	nHist := c.Pick(18, 160)
 	for i := 0; i < nHist; i++ {
 		cfg := cfgs[i%len(cfgs)]
